@@ -73,8 +73,46 @@ fn compare(ix: &DatasetIndex, m: &Model) -> Result<(), String> {
     }
     let listed: BTreeSet<u32> = ix.named_graphs().into_iter().filter_map(|g| if let GraphId::Named(n) = g { Some(n) } else { None }).collect();
     if listed != m.graphs { return Err(format!("named_graphs() = {:?}, expected {:?}", listed, m.graphs)); }
-    let all: BTreeSet<_> = ix.all_quads().into_iter().map(|q| (q.subject, q.predicate, q.object, q.graph)).collect();
-    if all != m.quads { return Err(format!("all_quads() = {:?}, expected {:?}", all, m.quads)); }
+    let all_v: Vec<_> = ix.all_quads().into_iter().map(|q| (q.subject, q.predicate, q.object, q.graph)).collect();
+    let all: BTreeSet<_> = all_v.iter().copied().collect();
+    if all != m.quads || all.len() != all_v.len() { return Err(format!("all_quads() = {:?}, expected {:?} each once", all_v, m.quads)); }
+    // graph listing including the default graph
+    let gs: Vec<GraphId> = ix.graphs();
+    let want_gs: Vec<GraphId> = std::iter::once(GraphId::Default).chain(m.graphs.iter().map(|n| GraphId::Named(*n))).collect();
+    if gs != want_gs { return Err(format!("graphs() = {:?}, expected {:?}", gs, want_gs)); }
+    // cross-graph read paths
+    let visible_sets: [Option<std::collections::HashSet<GraphId>>; 3] = [None, Some([GraphId::Named(0)].into_iter().collect()), Some([GraphId::Named(1), GraphId::Default].into_iter().collect())];
+    for s in opts { for p in opts { for o in opts {
+        let pat = |q: &(u32, u32, u32, GraphId)| s.map_or(true, |x| x == q.0) && p.map_or(true, |x| x == q.1) && o.map_or(true, |x| x == q.2);
+        for vis in &visible_sets {
+            let got: Vec<_> = ix.query_named_graphs(s, p, o, vis.as_ref()).into_iter().map(|q| (q.subject, q.predicate, q.object, q.graph)).collect();
+            let got_set: BTreeSet<_> = got.iter().copied().collect();
+            let want: BTreeSet<_> = m.quads.iter().copied().filter(|q| q.3 != GraphId::Default && pat(q) && vis.as_ref().map_or(true, |v| v.contains(&q.3))).collect();
+            if got_set != want || got.len() != got_set.len() { return Err(format!("query_named_graphs({:?},{:?},{:?},{:?}) = {:?}, expected {:?} each once", s, p, o, vis, got, want)); }
+        }
+        let got: Vec<_> = ix.query_quads(s, p, o, None).into_iter().map(|q| (q.subject, q.predicate, q.object, q.graph)).collect();
+        let got_set: BTreeSet<_> = got.iter().copied().collect();
+        let want: BTreeSet<_> = m.quads.iter().copied().filter(|q| pat(q)).collect();
+        if got_set != want || got.len() != got_set.len() { return Err(format!("query_quads({:?},{:?},{:?},None) = {:?}, expected {:?} each once", s, p, o, got, want)); }
+        for sources in [vec![], vec![GraphId::Default], vec![GraphId::Named(0), GraphId::Named(1)], vec![GraphId::Default, GraphId::Named(0), GraphId::Named(0)]] {
+            let got: Vec<_> = ix.query_merged_graphs(&sources, s, p, o).into_iter().map(|t| (t.subject, t.predicate, t.object)).collect();
+            let got_set: BTreeSet<_> = got.iter().copied().collect();
+            let want: BTreeSet<_> = m.quads.iter().copied().filter(|q| pat(q) && sources.contains(&q.3)).map(|q| (q.0, q.1, q.2)).collect();
+            if got_set != want || got.len() != got_set.len() { return Err(format!("query_merged_graphs({:?},{:?},{:?},{:?}) = {:?}, expected {:?} each once (RDF merge)", sources, s, p, o, got, want)); }
+        }
+        let got: BTreeSet<_> = ix.query_default(s, p, o).into_iter().map(|t| (t.subject, t.predicate, t.object)).collect();
+        let want: BTreeSet<_> = m.quads.iter().copied().filter(|q| pat(q) && q.3 == GraphId::Default).map(|q| (q.0, q.1, q.2)).collect();
+        if got != want { return Err(format!("query_default({:?},{:?},{:?}) = {:?}, expected {:?}", s, p, o, got, want)); }
+    }}}
+    for s in 0..2 { for p in 0..2 { for o in 0..2 {
+        let got: BTreeSet<GraphId> = ix.graphs_for_triple(&Triple { subject: s, predicate: p, object: o }).into_iter().collect();
+        let want: BTreeSet<GraphId> = m.quads.iter().filter(|q| q.0 == s && q.1 == p && q.2 == o).map(|q| q.3).collect();
+        if got != want { return Err(format!("graphs_for_triple({},{},{}) = {:?}, expected {:?}", s, p, o, got, want)); }
+    }}}
+    for g in graphs() {
+        let want = m.quads.iter().filter(|q| q.3 == g).count();
+        if ix.len_graph(g) != want { return Err(format!("len_graph({:?}) = {}, expected {}", g, ix.len_graph(g), want)); }
+    }
     Ok(())
 }
 
@@ -123,6 +161,7 @@ fn explore(focus: fn(Op) -> bool) {
 #[test] fn w__DatasetIndex_drop_graph__any() { explore(|o| matches!(o, Op::Drop(..))); }
 #[test] fn w__DatasetIndex_contains_quad__any() { explore(|_| true); }
 #[test] fn w__DatasetIndex_query_graph__any() { explore(|_| true); }
+#[test] fn w__read_paths__all_sequences() { explore(|_| true); }
 #[test] fn w__remove_from_nested_index__any() { explore(|o| matches!(o, Op::Del(..) | Op::DelT(..) | Op::Clear(..) | Op::Drop(..))); }
 #[test] fn w__remove_from_graph_index__any() { explore(|o| matches!(o, Op::Del(..) | Op::DelT(..) | Op::Clear(..) | Op::Drop(..))); }
 #[test] fn w__remove_from_spog__any() { explore(|o| matches!(o, Op::Del(..) | Op::DelT(..) | Op::Clear(..) | Op::Drop(..))); }
